@@ -52,7 +52,7 @@ func (t c06Topo) String() string {
 // adjacent.
 func c06GenTopo(r *kit.Rand) c06Topo {
 	t := c06Topo{
-		sockets:        r.Range(1, 2),
+		sockets:        kit.Pick(r, []int{1, 1, 2, 2, 2, 3, 4}),
 		nodesPerSocket: kit.Pick(r, []int{1, 1, 2, 2, 4}),
 		coresPerNode:   r.Range(1, 8),
 		threads:        kit.Pick(r, []int{1, 2, 2, 2, 4}),
